@@ -193,6 +193,40 @@ impl Session {
         }
     }
 
+    /// Run several handlers CONCURRENTLY to completion: they are polled in turn (one poll each per round), so the
+    /// file I/O one of them started on tokio's blocking pool proceeds while the others run — the way tower-lsp
+    /// overlaps handlers of requests that arrive together.  Configuration requests are answered at once.
+    #[allow(dead_code)]
+    pub fn drive_all(&mut self, mut futs: Vec<HandlerFut>) -> bool {
+        let w = noop_waker();
+        let mut cx = Context::from_waker(&w);
+        let t0 = Instant::now();
+        let mut done = vec![false; futs.len()];
+        let mut spins = 0u32;
+        loop {
+            for (i, f) in futs.iter_mut().enumerate() {
+                if !done[i] && matches!(f.as_mut().poll(&mut cx), Poll::Ready(_)) {
+                    done[i] = true;
+                }
+                for id in self.drain_socket() {
+                    self.answer(id);
+                }
+            }
+            if done.iter().all(|d| *d) {
+                return true;
+            }
+            spins += 1;
+            if spins > 50 {
+                std::thread::sleep(Duration::from_micros(50));
+            } else {
+                std::thread::yield_now();
+            }
+            if t0.elapsed() > self.watchdog {
+                return false;
+            }
+        }
+    }
+
     pub fn notify(&mut self, method: &str, params: Value) -> bool {
         let f = self.start(method, params, false);
         self.drive(f)
